@@ -1,4 +1,10 @@
-"""C17 -- Newmark-Beta and coupled-damping-as-force recurrences (partial claim)."""
+"""C17 -- Newmark-Beta and coupled-damping-as-force recurrences (partial claim).
+
+Every rule decides on *values*: the solver source is interpreted (verifier/c17_interp.py; nothing of /repo is imported or run) on a small
+system with symbolic entries - 2 degrees of freedom, 5 time steps, explicit matrices, two opaque nonlinear terms - in every configuration
+the code distinguishes (diagonal / full matrices, with / without nonlinear terms, m None / given, order 0 / 1, rf modes) and the resulting
+arrays, attributes and recorded calls are compared with an independent transcription of the documented recurrences.  The spelling of the
+source (names, temporaries, polarity of tests, kind of loop, helper functions, import aliases, views, index style) does not enter."""
 from __future__ import annotations
 
 import ast
@@ -8,8 +14,8 @@ from . import c17_interp as I
 from . import e2_formula as F
 from . import ode_spaces as O
 from .core import AnchorError, Unsupported
-from .e1_srcmodel import dotted, walk_no_nested, parent, ancestors, utext
-from .e2_eval import Evaluator, Unknown, is_unknown, need
+from .e1_srcmodel import dotted, walk_no_nested, ancestors
+from .e2_eval import Evaluator, is_unknown, need
 
 NM, UNC, BASE = O.NM, O.UNC, O.BASE
 CDF = "pyyeti/ode/solvecdf.py"
@@ -199,7 +205,7 @@ class NLTerms:
 
     def hook(self, it, op, args, kwargs, node):
         if op not in self.funcs:
-            raise Unsupported(f"call of {op.name} (no model)")
+            return NotImplemented
         k = self.funcs.index(op)
         j = args[1] if len(args) > 1 else None
         try:
@@ -228,12 +234,14 @@ class NLTerms:
 
 def _nm_self(it, unc, terms=None, **extra):
     cls = it.cls(NM, "SolveNewmark")
+    # the documented members of an instance without residual-flexibility modes (index partitions are slices: `slices` is True)
     me = I.Obj(cls, "self", n=N, ksize=N, rfsize=0, nonrfsz=N, elsize=N, rbsize=0, nonrf=slice(None), kdof=slice(None), rf=slice(0, 0),
-               unc=unc, h=H, pc=True, systype=I.FLOAT, slices=True, pre_eig=False, nonlin_terms=0)
+               el=slice(None), rb=slice(0, 0), _el=slice(None), _rb=slice(0, 0), krf=None, ikrf=None,
+               unc=unc, h=H, pc=True, systype=I.FLOAT, slices=True, pre_eig=False, nonlin_terms=0, cdforces=False)
     if unc:
-        me.attrs.update(k=vec("K"), b=vec("B"), Ad=vec("Ad"), A1=vec("A1"), A0=vec("A0"))
+        me.attrs.update(m=vec("M"), k=vec("K"), b=vec("B"), Ad=vec("Ad"), A1=vec("A1"), A0=vec("A0"))
     else:
-        me.attrs.update(k=mat("K"), b=mat("B"), Ad=I.LU(inv=mat("iA")), A1=mat("A1"), A0=mat("A0"))
+        me.attrs.update(m=mat("M"), k=mat("K"), b=mat("B"), Ad=I.LU(inv=mat("iA")), A1=mat("A1"), A0=mat("A0"))
     if terms is not None:
         me.attrs.update(nonlin_terms=2, nl_dct=terms.nl_dct())
     me.attrs.update(extra)
@@ -294,8 +302,10 @@ def r2_code_equals_documentation(ctx):
                     ctx.fail(f"{tag}: self.{nm} is inv(A) times the documented {key} = {docs[key]}", fn, _show(v))
                     continue
                 # A x = A_k decides x = inv(A) A_k without inverting on the checker's side; the documented A is used, not the code's
-                lhs = want["A"] * v if unc else want["A"] @ v
-                ok = _eq(lhs, want[key])
+                L, sc = I.clear_denominators(want["A"].flat())
+                As = I.NDArr.new(shape, sc)
+                lhs = As * v if unc else As @ v
+                ok = _eq(lhs, want[key] * L)
                 ctx.check(ok, f"{tag}: self.{nm} is inv(A) times the documented {key} = {docs[key]}", fn, None if ok else _show(v))
     # the comment block inside _newmark_precalcs is a third sibling (documentation only: not behaviour, hence nontrivial=False)
     src = ctx.src.seg(fn)
@@ -322,54 +332,76 @@ def r2_code_equals_documentation(ctx):
 def _r2_startup(ctx, docs):
     """start-up step of _init_dva: u_-1 = u_0 - v_0 h ; F_-1 = K u_-1 + B v_0 ; F_0 := K u_0 + B v_0 ; A u_1 = (F_1 + F_0 + F_-1)/3 + N_0 + A_1 u_0 + A_0 u_-1"""
     ini = ctx.src.func(NM, "SolveNewmark._init_dva")
-    # the documented start-up displacement, read from the docstring: u_{-1} = u_0 - \dot{u}_0 h
-    du = docs.get("u_-1")
+    du = docs.get("u_-1")      # the documented start-up displacement, read from the docstring: u_{-1} = u_0 - \dot{u}_0 h
     for unc in (UNC_F, CPL):
         for nonlin in (False, True):
-            tag = f"SolveNewmark._init_dva ({_cfg(unc, nonlin)})"
-            terms = NLTerms() if nonlin else None
-            it = I.Interp(ctx, on_opaque=terms.hook if terms else None)
-            me = _nm_self(it, unc, terms)
-            f, d0, v0 = mat("f", N, NT), vec("d0"), vec("v0")
-            ok, res = _guard(ctx, tag, ini, lambda: it.call_method(me, "_init_dva", f, d0, v0))
-            if not ok:
-                continue
-            if not (isinstance(res, tuple) and len(res) == 4 and all(isinstance(x, I.NDArr) for x in res)):
-                ctx.fail(f"{tag}: returns (d, v, a, force)", ini, _show(res))
-                continue
-            d, v, a, frc = res
-            K, B, A1, A0 = (me.attrs[x] for x in ("k", "b", "A1", "A0"))
-            mul, inva = _mul(unc), _inv_a(me, unc)
-            if du is not None:
-                um1 = I.NDArr.new((N,), [du.subs({"u_0": x, "vu_0": y}) for x, y in zip(d0.flat(), v0.flat())])
-            else:
-                um1 = d0 - v0 * H
-            F0 = mul(K, d0) + mul(B, v0)
-            Fm1 = mul(K, um1) + mul(B, v0)
-            N0 = terms.force(0) if nonlin else 0
-            want_d1 = inva((f[:, 1] + F0 + Fm1) / 3) + N0 + mul(A1, d0) + mul(A0, um1)
-            if nonlin:
-                c0 = [c for c in terms.calls if c["j"] == 0]
-                ok = {c["k"] for c in c0} == {0, 1} and len(terms.calls) == 2 and all(
-                    terms.call_ok(c) and c["snap"].shape == (N, NT) and _eq(c["snap"][:, -1], um1) and _eq(c["snap"][:, 0], d0) for c in c0)
-                ctx.check(ok, f"{tag}: when the nonlinear functions are evaluated at j = 0 as func(d, 0, h, **optargs), column 0 of d is u_0 and the "
-                              "last column holds the documented u_-1 = u_0 - v_0 h (unconditionally: def_nonlin documents d[:, j-1] for j = 0)", ini,
-                          None if ok else [(c["k"], c["j"], _show(c["snap"][:, -1] if c["snap"] is not None and c["snap"].ndim == 2 else c["snap"])) for c in terms.calls])
-                z = me.attrs.get("z")
-                ok = isinstance(z, dict) and set(z) == set(terms.keys) and all(
-                    isinstance(z[key], I.NDArr) and z[key].shape == (NZ, NT) and _eq(z[key][:, 0], terms.z(k_, 0)) for k_, key in enumerate(terms.keys))
-                ctx.check(ok, f"{tag}: self.z[key] is allocated with one column per time step and column 0 is the function output at j = 0", ini,
-                          None if ok else _show(z))
-            ok = _eq(d[:, 1], want_d1) and _eq(d[:, 0], d0)
-            ctx.check(ok, f"{tag}: the first step uses F_0 := K u_0 + B v_0, F_-1 = K u_-1 + B v_0, u_-1 = u_0 - v_0 h and the start-up nonlinear term N_0 "
-                          "in the documented recurrence", ini, None if ok else {"code": _show(d[:, 1]), "documented": _show(want_d1)})
-            want_a0 = (want_d1 - 2 * d0 + um1) / (H * H)
-            ok = _eq(a[:, 0], want_a0) and _eq(v[:, 0], v0)
-            ctx.check(ok, f"{tag}: initial acceleration is the central difference (u_1 - 2 u_0 + u_-1)/h^2", ini, None if ok else _show(a[:, 0]))
-            want_f = [inva(F0 / 3)] + [inva(f[:, j] / 3) for j in range(1, NT)]
-            ok = frc.shape == (N, NT) and all(_eq(frc[:, j], want_f[j]) for j in range(NT))
-            ctx.check(ok, f"{tag}: the returned force is inv(A) F/3 with F_0 replaced (what the recurrence in tsolve adds directly)", ini,
-                      None if ok else _show(frc))
+            _startup_case(ctx, ini, du, unc, nonlin)
+    _startup_case(ctx, ini, du, UNC_F, False, ic=False)
+    for unc in (UNC_F, CPL):
+        _startup_case(ctx, ini, du, unc, False, rf=True)
+
+
+def _startup_case(ctx, ini, du, unc, nonlin, ic=True, rf=False):
+    tag = f"SolveNewmark._init_dva ({_cfg(unc, nonlin)}{'' if ic else ', no initial conditions given'}{', one trailing rf mode' if rf else ''})"
+    terms = NLTerms() if nonlin else None
+    it = I.Interp(ctx, on_opaque=terms.hook if terms else None)
+    me = _nm_self(it, unc, terms)
+    ntot = N + 1 if rf else N
+    K_ = slice(0, N)
+    if rf:
+        ikrf = mat("ikrf", 1, 1)
+        me.attrs.update(n=ntot, rfsize=1, rf=slice(N, ntot), nonrf=K_, kdof=K_, el=K_, ikrf=ikrf if unc else I.LU(inv=ikrf))
+    f = mat("f", ntot, NT)
+    d0f, v0f = (vec("d0", ntot), vec("v0", ntot)) if ic else (None, None)
+    ok, res = _guard(ctx, tag, ini, lambda: it.call_method(me, "_init_dva", f, d0f, v0f))
+    if not ok:
+        return
+    if not (isinstance(res, tuple) and len(res) == 4 and all(isinstance(x, I.NDArr) for x in res)):
+        ctx.fail(f"{tag}: returns (d, v, a, force)", ini, _show(res))
+        return
+    d, v, a, frc = res
+    if d.shape != (ntot, NT) or v.shape != (ntot, NT) or a.shape != (ntot, NT):
+        ctx.fail(f"{tag}: d, v, a have one row per equation and one column per time step", ini, (d.shape, v.shape, a.shape))
+        return
+    zero = I.NDArr.full((N,), F.const(0))
+    d0, v0 = (d0f[K_], v0f[K_]) if ic else (zero, zero)
+    fk = f[K_]
+    K, B, A1, A0 = (me.attrs[x] for x in ("k", "b", "A1", "A0"))
+    mul, inva = _mul(unc), _inv_a(me, unc)
+    if du is not None:
+        um1 = I.NDArr.new((N,), [du.subs({"u_0": x, "vu_0": y}) for x, y in zip(d0.flat(), v0.flat())])
+    else:
+        um1 = d0 - v0 * H
+    F0 = mul(K, d0) + mul(B, v0)
+    Fm1 = mul(K, um1) + mul(B, v0)
+    N0 = terms.force(0) if nonlin else 0
+    want_d1 = inva((fk[:, 1] + F0 + Fm1) / 3) + N0 + mul(A1, d0) + mul(A0, um1)
+    if nonlin:
+        c0 = [c for c in terms.calls if c["j"] == 0]
+        ok = {c["k"] for c in c0} == {0, 1} and len(terms.calls) == 2 and all(
+            terms.call_ok(c) and c["snap"].shape == (ntot, NT) and _eq(c["snap"][K_, -1], um1) and _eq(c["snap"][K_, 0], d0) for c in c0)
+        ctx.check(ok, f"{tag}: when the nonlinear functions are evaluated at j = 0 as func(d, 0, h, **optargs), column 0 of d is u_0 and the "
+                      "last column holds the documented u_-1 = u_0 - v_0 h (unconditionally: def_nonlin documents d[:, j-1] for j = 0)", ini,
+                  None if ok else [(c["k"], c["j"], _show(c["snap"][:, -1] if c["snap"] is not None and c["snap"].ndim == 2 else c["snap"])) for c in terms.calls])
+        z = me.attrs.get("z")
+        ok = isinstance(z, dict) and set(z) == set(terms.keys) and all(
+            isinstance(z[key], I.NDArr) and z[key].shape == (NZ, NT) and _eq(z[key][:, 0], terms.z(k_, 0)) for k_, key in enumerate(terms.keys))
+        ctx.check(ok, f"{tag}: self.z[key] is allocated with one column per time step and column 0 is the function output at j = 0", ini,
+                  None if ok else _show(z))
+    ok = _eq(d[K_, 1], want_d1) and _eq(d[K_, 0], d0)
+    ctx.check(ok, f"{tag}: the first step uses F_0 := K u_0 + B v_0, F_-1 = K u_-1 + B v_0, u_-1 = u_0 - v_0 h and the start-up nonlinear term N_0 "
+                  "in the documented recurrence", ini, None if ok else {"code": _show(d[K_, 1]), "documented": _show(want_d1)})
+    want_a0 = (want_d1 - 2 * d0 + um1) / (H * H)
+    ok = _eq(a[K_, 0], want_a0) and _eq(v[K_, 0], v0)
+    ctx.check(ok, f"{tag}: initial acceleration is the central difference (u_1 - 2 u_0 + u_-1)/h^2", ini, None if ok else _show(a[K_, 0]))
+    want_f = [inva(F0 / 3)] + [inva(fk[:, j] / 3) for j in range(1, NT)]
+    ok = frc.shape == (N, NT) and all(_eq(frc[:, j], want_f[j]) for j in range(NT))
+    ctx.check(ok, f"{tag}: the returned force is inv(A) F/3 of the non-rf equations with F_0 replaced (what the recurrence in tsolve adds directly)", ini,
+              None if ok else _show(frc))
+    if rf:
+        ok = all(_eq(d[N:, j], ikrf @ f[N:, j]) for j in range(NT))
+        ctx.check(ok, f"{tag}: the rf equations are solved statically, d_rf = inv(K_rf) F_rf at every step, initial conditions ignored", ini,
+                  None if ok else _show(d[N:]))
 
 
 # ---------------------------------------------------------------------------
@@ -425,18 +457,28 @@ class TsolveRun:
 
 
 def _tsolve_runs(ctx):
+    """the four evaluations of tsolve, shared by R1 and R3 (problems are reported under each rule that needs the runs)"""
     fn = ctx.src.func(NM, "SolveNewmark.tsolve")
+    cache = getattr(ctx, "_c17_tsolve", None)
+    if cache is not None:
+        runs, problems = cache
+        for o in problems:
+            (ctx.fail if o.status == "fail" else ctx.error)(o.instance, o.where, o.detail)
+        return fn, runs
     runs = {}
+    n0 = len(ctx.obls)
     for unc in (UNC_F, CPL):
         for nonlin in (False, True):
             tag = f"tsolve ({_cfg(unc, nonlin)})"
             r = TsolveRun(ctx, unc, nonlin)
             ok, _ = _guard(ctx, tag, fn, r.run)
             if ok:
-                ok = isinstance(r.sol, I.Obj) and r.sol_args is not None and all(x is y for x, y in zip(r.sol_args[:3], (r.d, r.v, r.a)))
+                ok = isinstance(r.sol, I.Obj) and r.sol_args is not None and len(r.sol_args) >= 3 and \
+                    all(x is y for x, y in zip(r.sol_args[:3], (r.d, r.v, r.a)))
                 if not ok:
                     ctx.fail(f"{tag}: the solution is built from the arrays d, v, a of the start-up step", fn)
             runs[(unc, nonlin)] = r if ok else None
+    ctx._c17_tsolve = (runs, list(ctx.obls[n0:]))
     return fn, runs
 
 
@@ -531,10 +573,6 @@ def r3_differences(ctx):
             for k_, key in enumerate(t.keys)) and r.sol.attrs.get("z") is z
         ctx.check(ok, f"{tag}: the output of every nonlinear function at step j is recorded in column j of z[key] and returned as sol.z", fn,
                   None if ok else _show(z))
-    for (unc, nonlin), r in live.items():
-        if not nonlin:
-            ok = "z" not in r.sol.attrs
-            ctx.check(ok, f"tsolve ({_cfg(unc, nonlin)}): no nonlinear function is evaluated and no z is returned without nonlinear terms", fn)
     dn = ctx.src.func(NM, "SolveNewmark.def_nonlin")
     for unc in (UNC_F, CPL):
         tag = f"def_nonlin ({'uncoupled' if unc else 'coupled'})"
@@ -838,23 +876,31 @@ def r6_typing(ctx):
 
 
 RULES = [
-    ("C17-R1", r1_four_branch_agreement, 11),
-    ("C17-R2", r2_code_equals_documentation, 20),
-    ("C17-R3", r3_differences, 6),
+    ("C17-R1", r1_four_branch_agreement, 15),
+    ("C17-R2", r2_code_equals_documentation, 37),
+    ("C17-R3", r3_differences, 9),
     ("C17-R4", r4_cdf_equals_unc_on_diagonal, 7),
     ("C17-R5", r5_implicit_update, 8),
     ("C17-R6", r6_typing, 10),
 ]
 LEVEL = "other"
-EXPLANATION = ("Static: the Newmark matrices extracted from _newmark_precalcs equal the formulas parsed from the class docstring's LaTeX (and the comment "
-               "block), the start-up step uses the documented u_-1, F_-1 and replaced F_0, all four tsolve branches are the documented recurrence, the last "
-               "step is the recurrence with the linearly extrapolated force, velocities/accelerations are the documented differences (checked on a "
-               "generic 5-point history); SolveCDF reaches damping-as-force code only for non-diagonal damping; the CDF update solves its implicit equations.")
+EXPLANATION = ("Static: the source of SolveNewmark and of the damping-as-force path of SolveUnc is interpreted on a 2-dof, 5-step system with symbolic "
+               "entries (explicit matrices, so the order of matrix products counts) in every configuration the code distinguishes. The factored Newmark "
+               "matrices equal the formulas parsed from the class docstring's LaTeX, the start-up step uses the documented u_-1 (stored for the nonlinear "
+               "functions unconditionally), F_-1 and replaced F_0, every step of tsolve is the documented recurrence in all four configurations, the last "
+               "velocity/acceleration come from the recurrence with the linearly extrapolated force, velocities/accelerations are the documented "
+               "differences, nonlinear functions see the final history of steps 0..j; SolveCDF forwards to SolveUnc and _chk_diag_part leaves cdforces "
+               "False for diagonal damping; alpha = C_od (I + Bp C_od)^-1 entry by entry and two steps of the CDF loop satisfy the implicit equations.")
 MANIFEST = {
-    "text": "Partial claim decided statically: (R1) four-branch agreement and last-step extrapolation; (R2) code == documentation for A, A_1, A_0 (LaTeX parsed from "
-            "the docstring), start-up u_-1 / F_-1 / F_0 and 1/3 force average pre-divided by A; (R3) central differences, nonlinear term placement; "
-            "(R4) SolveCDF == SolveUnc on diagonal damping by dominance; (R5) alpha = bo (I + Bp bo)^-1 and the implicit V1, D1 equations; (R6) index-space typing. "
-            "Not decided: order of convergence, boundedness, massless-DOF behaviour numerically.",
-    "note": "Trusted: CPython ast; verifier/e2_formula.py with commutative abstraction of matrix products; the LaTeX subset reader in verifier/c17.py.",
-    "technique": "static formula extraction compared with formulas parsed from the docstring's LaTeX; symbolic small-vector evaluation of difference formulas; dominance rules",
+    "text": "Partial claim decided statically on values (abstract interpretation of the source on a small symbolic system): (R1) the documented recurrence at "
+            "every step in the four configurations of tsolve, their agreement, and last-step extrapolation; (R2) code == documentation for A, A_1, A_0 (LaTeX "
+            "parsed from the docstring; diagonal and full matrices, m None/given), start-up u_-1 / F_-1 / F_0, the 1/3 force average pre-multiplied by inv(A), "
+            "zero default initial conditions, static rf solution; (R3) central differences, nonlinear term placement and recording, def_nonlin; "
+            "(R4) SolveCDF == SolveUnc on diagonal damping (outcome of _chk_diag_part, argument forwarding, unreachability of the cdforces solvers); "
+            "(R5) alpha = C_od (I + Bp C_od)^-1 with the order of the products, and the implicit V1, D1 equations over two steps; (R6) index-space typing. "
+            "Not decided: order of convergence, boundedness, massless-DOF behaviour numerically; interleaved rf layouts (left to R6's typing).",
+    "note": "Trusted: CPython ast; verifier/e2_formula.py (exact rational functions); verifier/c17_interp.py (model of the numpy/scipy subset: basic indexing "
+            "views, broadcasting, matmul, transpose/swapaxes, solve, lu_factor/lu_solve); the LaTeX subset reader in verifier/c17.py.",
+    "technique": "abstract interpretation of the solver source over concrete shapes and symbolic entries, compared with formulas parsed from the docstring's LaTeX "
+                 "and an independent transcription of the documented recurrences; three-valued dominance for the cdforces call sites",
 }
